@@ -56,6 +56,18 @@ def gen_s_case(rng, cls=None, force=None):
         # up to 20 base modalities: keep the number of tested combinations (all recorded in the
         # history) in the hundreds
         p["max_n_mod"] = min(p["max_n_mod"], 3)
+    # summary()/history()/history(f) are pure queries: the order of the calls is part of the case
+    case["hist_order"] = rng.choice(["all_first", "all_first", "each_first"])
+    # per-feature missing-value status different from the object's global flag: an object built with
+    # dropna=False whose missing values are then grouped feature by feature with update_discretizer
+    # ("edit"), or whose features_dropna differ through its JSON ("mixed")
+    has_nan = any(t[0] == "nan" for f in case["features"] for t in f["values"])
+    if not p["dropna"] and has_nan and rng.random() < 0.6:
+        case["nan_variant"] = rng.choice(["edit", "edit", "mixed"])
+        pat = [rng.random() < 0.6 for _ in range(8)]
+        if not any(pat):
+            pat[rng.randrange(3)] = True
+        case["nan_pattern"] = pat
     return case
 
 
@@ -76,6 +88,34 @@ def feature_lists(case):
 
 
 def fit_object16(case):
+    obj = fit_plain(case)
+    variant = case.get("nan_variant")
+    if not variant:
+        return obj
+    import numpy
+    pat = case["nan_pattern"]
+    names = sorted(obj.features)
+    chosen = [n for i, n in enumerate(names) if pat[i % len(pat)]
+              and any(isinstance(k, str) and k == obj.str_nan for k in obj.values_orders[n])]
+    if variant == "edit":
+        # the documented way: group the missing values of these features with their first modality
+        for n in chosen:
+            leader = next(k for k in obj.values_orders[n] if not (isinstance(k, str) and k == obj.str_nan))
+            obj.update_discretizer(n, "group", numpy.nan, leader)
+        return obj
+    js = json.loads(json.dumps(obj.to_json()))
+    for n in chosen:
+        js["features_dropna"][n] = True
+    js["copy"] = True
+    js["verbose"] = False
+    if "_history" in js:
+        from AutoCarver.carvers import load_carver
+        return load_carver(js)
+    from AutoCarver.discretizers.utils.base_discretizers import load_discretizer
+    return load_discretizer(js)
+
+
+def fit_plain(case):
     if case["cls"] != "MulticlassCarver":
         return c04.fit_object(case)
     import pandas as pd
@@ -239,6 +279,23 @@ def call_records(fn):
         return C.exc_class(e)
 
 
+def strip_recs(rs):
+    return json.dumps([{k: v for k, v in r.items() if k != "feature"} for r in rs], sort_keys=True)
+
+
+def snapshot(obj):
+    """to_json() as plain JSON data"""
+    return json.loads(json.dumps(obj.to_json(), sort_keys=True, default=repr))
+
+
+def strip_feature_key(js):
+    js = dict(js)
+    if isinstance(js.get("_history"), dict):
+        js["_history"] = {f: [{k: v for k, v in r.items() if k != "feature"} if isinstance(r, dict) else r
+                              for r in recs] for f, recs in js["_history"].items()}
+    return js
+
+
 def run_s(case):
     obj, skip = None, None
     try:
@@ -262,14 +319,34 @@ def run_s(case):
             runs.append({"cells": cs, "out": os_})
     out = {"features": states, "runs": runs, "exc": exc, "kept": kept, "declared": declared,
            "input_dtypes": {n: obj.input_dtypes.get(n) for n in kept}}
+    j0 = snapshot(obj)
     out["summary_all"] = call_table(lambda: obj.summary())
     out["summary_each"] = {n: call_table(lambda n=n: obj.summary(n)) for n in kept}
     unknown = [n for n in declared if n not in kept] + [UNKNOWN]
     out["summary_unknown"] = {n: call_table(lambda n=n: obj.summary(n)) for n in unknown}
+    out["summary_all_2"] = call_table(lambda: obj.summary())
+    j1 = snapshot(obj)
+    out["pure_summary"] = j0 == j1
     if case["cls"].endswith("Carver"):
-        out["history_each"] = {n: call_records(lambda n=n: obj.history(n)) for n in kept}
+        def each():
+            return {n: call_records(lambda n=n: obj.history(n)) for n in kept}
+        if case.get("hist_order", "each_first") == "all_first":
+            out["history_all"] = call_records(lambda: obj.history())
+            out["history_each"] = each()
+            out["history_all_2"] = call_records(lambda: obj.history())
+            out["history_each_2"] = each()
+        else:
+            out["history_each"] = each()
+            out["history_all"] = call_records(lambda: obj.history())
+            out["history_each_2"] = each()
+            out["history_all_2"] = call_records(lambda: obj.history())
         out["history_unknown"] = call_records(lambda: obj.history(UNKNOWN))
-        out["history_all"] = call_records(lambda: obj.history())
+        out["summary_all_3"] = call_table(lambda: obj.summary())
+        j2 = snapshot(obj)
+        out["pure_history"] = j1 == j2
+        out["pure_history_modulo_feature_key"] = strip_feature_key(j1) == strip_feature_key(j2)
+        h1, h2 = j1.get("_history") or {}, j2.get("_history") or {}
+        out["stored_history_sizes"] = {str(n): [len(h1.get(n, [])), len(h2.get(n, []))] for n in h2}
         out["base"] = base_modalities(case)
     else:
         h = None
@@ -463,6 +540,13 @@ def oracle_summary(case, out):
         if t1 != "assert":
             return False, (f"summary({n!r}) for a feature that is not kept: AssertionError expected, got "
                            f"{t1 if isinstance(t1, str) else 'a table'}")
+    for tag in ("summary_all_2", "summary_all_3"):
+        t2 = out.get(tag)
+        if t2 is not None and t2 != tbl:
+            return False, ("summary() is not a pure query: a later call (after summary(f) / history() calls) "
+                           "returns a different table than the first one")
+    if out.get("pure_summary") is False:
+        return False, "summary() is not a pure query: to_json() differs before and after the summary calls"
     return True, ""
 
 
@@ -643,7 +727,9 @@ def oracle_history_s(case, out):
         if not b or "order" not in b:
             return False, f"feature {n!r} is kept by the carver but its base discretization gives {b!r}"
         base = Base(b)
-        dropna = bool(st["dropna"])
+        # the fitted grouping of the SEARCH: missing values belong to it only when the carver grouped
+        # them (dropna at fit); a later update_discretizer / features_dropna edit is not history
+        dropna = bool(p["dropna"])
         if base.kind == "quant":
             fitted = fitted_partition_quant(st, b, dropna)
         else:
@@ -651,10 +737,29 @@ def oracle_history_s(case, out):
         ok, msg = oracle_history_feature(n, recs, base, p["max_n_mod"], p["dropna"], True, fitted)
         if not ok:
             return False, msg
-        mine = [r for r in hall if r.get("feature") == n]
-        strip = lambda rs: json.dumps([{k: v for k, v in r.items() if k != "feature"} for r in rs], sort_keys=True)  # noqa: E731
-        if strip(mine) != strip(recs):
-            return False, f"history() and history({n!r}) hold different records for {n!r}"
+        for tag in ("history_all", "history_all_2"):
+            h = out.get(tag)
+            if h is None:
+                continue
+            if isinstance(h, str):
+                return False, f"history() raised ({h})"
+            mine = [r for r in h if r.get("feature") == n]
+            if strip_recs(mine) != strip_recs(recs):
+                return False, (f"history() [{'first' if tag == 'history_all' else 'second'} call, order "
+                               f"{case.get('hist_order', 'each_first')}] and history({n!r}) hold different records for {n!r}: "
+                               f"{len(mine)} vs {len(recs)} records")
+        recs2 = (out.get("history_each_2") or {}).get(n)
+        if recs2 is not None and (isinstance(recs2, str) or strip_recs(recs2) != strip_recs(recs)):
+            return False, (f"history({n!r}) is not a pure query: called again after history() it returns "
+                           f"{recs2 if isinstance(recs2, str) else len(recs2)} records instead of {len(recs)} "
+                           f"(order {case.get('hist_order', 'each_first')})")
+    h2 = out.get("history_all_2")
+    if h2 is not None and strip_recs(h2) != strip_recs(hall):
+        return False, (f"history() is not a pure query: {len(hall)} records at the first call, "
+                       f"{len(h2)} at the second")
+    if out.get("pure_history_modulo_feature_key") is False:
+        return False, ("history() is not a pure query: the stored history (to_json()['_history']) changed, "
+                       f"records per feature before/after: {out.get('stored_history_sizes')}")
     return True, ""
 
 
@@ -791,7 +896,9 @@ class C16(Prop):
             "values, ordinal; NaN share 0-30%) x class (Discretizer, QuantitativeDiscretizer, "
             "QualitativeDiscretizer, BinaryCarver, ContinuousCarver, MulticlassCarver) x output_dtype x "
             "dropna x JSON rebuild; summary(), summary(f) for every kept f, for every dropped f and for a "
-            "never declared name, history(), history(f), transform(X_train) are read and compared with the "
+            "never declared name, history(), history(f) (each called twice, history() first or history(f) first), "
+            "to_json() before/after, transform(X_train) are read; 60% of the dropna=False cases with missing "
+            "values get per-feature NaN status != global flag (update_discretizer / JSON); all compared with the "
             "property (python oracle: rows vs labels_per_values vs transform cell by cell; history vs base "
             "modalities of the real Discretizer and the fitted values_orders) and with Model/Summary.v run "
             "on the fitted state of every kept feature.  family H: one carver fit on one feature per case "
@@ -807,6 +914,14 @@ class C16(Prop):
         "with dropna=False a quantitative feature still gets a row for its own missing-value group (the "
         "extra pass of summary() does not read features_dropna) while a qualitative one hides it: "
         "modelled as coded and accepted by the oracle",
+        "history() (all features) adds a 'feature' key to the STORED records, hence to to_json()['_history']: "
+        "ignored (the stored history is compared before/after the calls modulo that key); everything else is "
+        "checked as a pure query: summary()/history()/history(f) called repeatedly in either order return the "
+        "same tables, and to_json() is unchanged",
+        "per-feature missing-value status different from the global flag is reached on dropna=False objects "
+        "through update_discretizer(f, 'group', nan, first modality) or by setting features_dropna[f] in the "
+        "object's JSON; the history of such an object is compared with the grouping of the SEARCH (dropna at "
+        "fit), not with the edited one",
         "history() also keeps the records of features dropped by the carver (flagged removed): C16 "
         "speaks about kept features only",
         "viability messages are not compared (the dev messages of an earlier candidate persist in "
@@ -834,6 +949,29 @@ class C16(Prop):
         cs.append(dict(cs[0], cls="BinaryCarver",
                        params={"min_freq": 0.2, "output_dtype": "float", "dropna": True, "max_n_mod": 3,
                                "sort_by": "tschuprowt"}))
+        # per-feature missing-value status differs from the global flag (dropna=False object, NaN of the
+        # qualitative feature grouped afterwards with update_discretizer / through JSON)
+        c2 = [["a", "b", "c", NAN][(i * 3 + i // 5) % 4] for i in range(80)]
+        q2 = [float((i * 7) % 10) if i % 7 else NAN for i in range(80)]
+        y2 = [1 if (i * 5) % 7 < 3 else 0 for i in range(80)]
+        for cls, variant in (("QualitativeDiscretizer", "edit"), ("BinaryCarver", "edit"), ("Discretizer", "mixed")):
+            feats = [{"name": "c0", "kind": "cat", "flavour": "letters", "values": encs(c2)}]
+            if cls != "QualitativeDiscretizer":
+                feats.append({"name": "q1", "kind": "quant", "flavour": "discrete", "values": encs(q2)})
+            prm = {"min_freq": 0.1, "output_dtype": "str", "dropna": False}
+            if cls == "BinaryCarver":
+                prm.update(max_n_mod=3, sort_by="cramerv")
+            cs.append({"fam": "S", "cls": cls, "json": False, "params": prm, "features": feats, "y": y2,
+                       "nan_variant": variant, "nan_pattern": [True], "hist_order": "all_first"})
+        # three kept features, history() first, then history(f), history() again
+        c3 = [["u", "v", "w"][(i * 2 + i // 4) % 3] for i in range(80)]
+        cs.append({"fam": "S", "cls": "BinaryCarver", "json": False, "hist_order": "all_first",
+                   "params": {"min_freq": 0.1, "output_dtype": "str", "dropna": True, "max_n_mod": 3,
+                              "sort_by": "tschuprowt"},
+                   "features": [{"name": "c0", "kind": "cat", "flavour": "letters", "values": encs(c2)},
+                                {"name": "c1", "kind": "cat", "flavour": "letters", "values": encs(c3)},
+                                {"name": "q2", "kind": "quant", "flavour": "discrete", "values": encs(q2)}],
+                   "y": [1 if ((i * 5) % 7 < 3) ^ (c3[i] == "u") else 0 for i in range(80)]})
         import os
         path = os.path.join(C.VERIF, "corpus", "findings", "C16-O33-summary-feature-leaks-nan-rows.json")
         if os.path.exists(path):
